@@ -576,7 +576,11 @@ def run_summary(req):
     import traceback as tbmod
     root = req["root"]
     obs = []
-    b = Builder()
+    ex_nid = req.get("exiting")
+    ex_path = find_path(root, ex_nid) if ex_nid is not None else None
+    if ex_path and not ex_path[-1]["async"]:
+        ex_path = None      # only an async manager can be observed suspended in its exit
+    b = Builder(exiting_nid=ex_nid if ex_path else None)
     rr = b.make(root)
 
     async def holder():
@@ -593,6 +597,9 @@ def run_summary(req):
     co = holder()
     try:
         co.send(None)
+        if ex_path:
+            if co.send(None) != ["aexit", ex_nid]:
+                return {"harness_error": "summary leg: did not suspend in the chosen __aexit__"}
     except BaseException as ex:
         return {"harness_error": "holder failed to start: %r" % (ex,)}
     st = extract(co)
@@ -618,7 +625,7 @@ def run_summary(req):
     for m in marks:
         if allctx:
             allctx[m % len(allctx)].hide = True
-    stats = {"elements": len(allctx), "hidden": len(marks) if allctx else 0, "combos": 0}
+    stats = {"elements": len(allctx), "hidden": len(marks) if allctx else 0, "combos": 0, "exiting": 1 if ex_path else 0}
     for sc in (False, True):
         for sh in (False, True):
             for cl in (False, True):
@@ -650,6 +657,11 @@ def run_summary(req):
         body = st.as_stdlib_summary(show_contexts=sc).format() if st.frames else []
         if flat[1:1 + len(body)] != body or not flat[0].startswith("stackscope.Stack"):
             obs.append({"kind": "format_flat_is_not_header_plus_summary", "show_contexts": sc})
+    try:
+        if ex_path:
+            co.send(None)
+    except BaseException:
+        pass
     try:
         co.close()
     except BaseException:
